@@ -48,6 +48,7 @@ DECIDED = [
     "C13.8 root backend scope table (check_root/get_root/set_root/unset_root)",
     "C13.9 TransferOps routing (remote / link / local) agrees across the five operations",
     "C13.10 compare_chain and transfer_chain walk the same files of the backing chain; get/set transfer down/up; unset keeps the chain",
+    "C13.2u removal tolerates a state held by only one of cache and pool (known finding F38); C13.8v vm roots are local only in get_root as in check_root; C13.4 proximity computed for every valuation",
 ]
 NOT_DECIDED = ["actual contents of sources", "truth of checksums"]
 MIN_INSTANCES = 30
